@@ -203,7 +203,7 @@ SPECS['C09'] = {
     'technique': 'exhaustive enumeration of credential-defect configurations of the peer against the real verifying endpoint over vnet (one implementation run per configuration), invariant: verifier completed => credentials authentic',
     'claim': 'For 3 protocols x {client verifies server, server verifies client}: with every defective peer credential of the menu (untrusted root, expired, not yet valid, issuer without basicConstraints / cA=FALSE, flipped certificate signature, sign key not matching the certificate, TLCP encryption key not matching the encryption certificate, chain in wrong order, empty chain), at chain depths 1..3, the verifying endpoint never reports a completed handshake; with honest credentials of depth 1..3 both sides complete with equal secrets.',
     'trusted': 'the peer is the real opposite endpoint with TLS_CTX filled directly (bypassing the key/certificate match check of the loader); a scripted puppet that omits messages is not part of this check',
-    'rule': '3 protocols x 2 verifier roles x 20 credential configurations (3 honest + 17 defective); distinct = configuration; states = configurations run, transitions = endpoint runs.',
+    'rule': '3 protocols x 2 verifier roles x 22 credential configurations (3 honest + 19 defective, incl. second-level issuers); distinct = configuration; states = configurations run, transitions = endpoint runs.',
     'bound': {'quick': 'whole menu', 'thorough': 'whole menu (+ asan)'},
     'assumptions': ['rogue peers that skip or reorder handshake messages with a self-consistent Finished are not enumerated here (C10 covers dropped / injected records by a network attacker)'],
     'quick': [J('c09', 'fast', srcs=TLSSRC)],
